@@ -23,7 +23,7 @@ func init() {
 		Run: func(c *core.Ctx, idx int) {
 			r := c.Rand()
 			cfg := kmodel.AllConfigs[idx%len(kmodel.AllConfigs)]
-			w := map[string]int{"create": 10, "update": 8, "patch": 8, "delete": 5}
+			w := map[string]int{"create": 10, "update": 8, "patch": 8, "delete": 5, "deletewhere": 2}
 			runHistory(c, r, histOpts{Prefix: "C03", Cfg: cfg, NTx: 40, MaxOps: 4, Hostile: true, Weights: w})
 		},
 		Promises: func(core.Tier) map[string][]string {
